@@ -412,7 +412,12 @@ class ChangeToData:
         return (description, changes, change.time)
 
     def convertChangeContents(self, change):
-        return (change.resource.path, change.new_contents, change.old_contents)
+        return (
+            change.resource.path,
+            change.new_contents,
+            change.old_contents,
+            change.resource.newlines,
+        )
 
     def convertMoveResource(self, change):
         return (
@@ -445,8 +450,9 @@ class DataToChange:
             result.add_change(self(child))
         return result
 
-    def makeChangeContents(self, path, new_contents, old_contents):
+    def makeChangeContents(self, path, new_contents, old_contents, newlines=None):
         resource = self.project.get_file(path)
+        resource.newlines = newlines
         return ChangeContents(resource, new_contents, old_contents)
 
     def makeMoveResource(self, old_path, new_path, is_folder=False):
